@@ -4,8 +4,8 @@
 From Coq Require Import List ZArith Bool Lia.
 Import ListNotations.
 From Goat Require Import Model.Client Model.Protocol Proofs.ClientBase Proofs.ProtocolClient.
-From Goat Require Model.Server.
-From Goat Require Import Proofs.ServerOrigin.
+From Goat Require Model.Server Model.Sys Proofs.SysC01.
+From Goat Require Import Proofs.ServerOrigin Proofs.SysLog Proofs.ServerWriter Proofs.ServerProto.
 Open Scope Z_scope.
 
 (* Client half. For EVERY run of the client model (any peer, any interleaving of the internal rules with
@@ -43,22 +43,46 @@ Proof.
 Qed.
 Print Assumptions C06_client_refuted.
 
-(* Server half, PARTIAL. For every run of the server model (Model/Server.v: arbitrary peer, any handler programs,
-   any interleaving): every envelope the server writes answers an envelope it has read - it carries the id of a
+(* Server half. For every run of the server model (Model/Server.v: any handler programs, any interleaving, any
+   transport behaviour) every envelope the server writes answers an envelope it has read - it carries the id of a
    received envelope ("a server emits envelopes only for ids it has received"), echoes its method, and has the
-   request's source and destination exchanged.
-   NOT PROVED (checked by the monitor on the real server only - Rig B exhaustively, Rig C): that each per-id
-   projection of the server's written log is accepted by proto_s2c (C06_server), that a trailer is present when the
-   handler returned on a live connection whose caller has not reset (C06_trailer_present; false for the handler's own
-   deadline: finding trailer-lost-on-handler-deadline) and that a reset never overtakes its stream's trailer
-   (C06_reset_order). They need the writer accounting invariant (taken = written ++ failed ++ in flight) and the
-   per-handler emission shape of Model/Server.v under the hypothesis that the peer does not reuse ids. *)
+   request's source and destination exchanged. *)
 Theorem C06_server_origin : forall nw ls (s : Server.state) f,
   Server.lrun (Server.init_n nw) ls = Some s -> In (Server.SvWrite f) (Server.log s) ->
   exists g, In (Server.SvRead g) (Server.log s) /\ Server.fid f = Server.fid g /\
             Server.f_src f = Server.f_dst g /\ Server.f_dst f = Server.f_src g /\ Server.f_mth f = Server.f_mth g.
 Proof. exact ServerOrigin.C06_server_origin_l. Qed.
 Print Assumptions C06_server_origin.
+
+(* C06_server, streams. [sconf i reads] is the peer's side of the bargain for stream id i, a condition on the envelopes
+   the server has READ (what C06_client guarantees of the Go client): no unary-method envelope carries the id, only the
+   FIRST envelope of the id is header-only (ids are not reused for a second stream), method / source / destination of
+   the id's envelopes are constant. Then, for every run, the envelopes of id i that the server has WRITTEN (in wire
+   order; `written` of sv's Proofs/ServerWriter.v) are accepted by the server-to-client automaton: at most one
+   header-only envelope and only first, bodies, at most one trailer carrying a status, response metadata only on the
+   first envelope, after the trailer only resets, nothing but resets after a reset; constant route.
+   Proof: invariant [pinv] on the envelopes handed to the writer per id, coupled with the handler's program counter
+   and its headersSent flag (Proofs/ServerProto.v) + sv's writer accounting (written is a subsequence of taken) + the
+   automaton is closed under subsequences. *)
+Theorem C06_server_stream : forall nw ls (s : Server.state) i,
+  Server.lrun (Server.init_n nw) ls = Some s -> sconf i (sreads (Server.log s)) ->
+  proto_s2c false (proj i (map pf (written (Server.log s)))) = true.
+Proof. exact ServerProto.C06_server_stream_l. Qed.
+Print Assumptions C06_server_stream.
+
+(* C06_reset_order: on the wire, no trailer of a stream id follows a reset of that id (the reset never overtakes
+   the trailer: D-06a stays repaired) *)
+Theorem C06_reset_order : forall nw ls (s : Server.state) i pre r post,
+  Server.lrun (Server.init_n nw) ls = Some s -> sconf i (sreads (Server.log s)) ->
+  proj i (map pf (written (Server.log s))) = pre ++ r :: post -> Protocol.is_rst r = true ->
+  forall t, In t post -> is_trailer t = false.
+Proof. exact ServerProto.C06_reset_order_l. Qed.
+Print Assumptions C06_reset_order.
+
+(* NOT PROVED (checked on the real server by the monitor only): the unary half of C06_server (exactly one response
+   with header, trailer and a body or a non-OK status: needs a hypothesis on unary handler programs - a reply or an
+   error) and C06_trailer_present (the model has no GRPC-Timeout, so the finding trailer-lost-on-handler-deadline is
+   outside it; within the model a trailer is lost only when the handler's context is done: rule r_h_send_ctx). *)
 
 (* the hypotheses of C06_client are met by a non-trivial run: open, two bodies, half-close, then the
    caller cancels: the client wrote open, body, body, trailer, reset - and the automaton accepts it *)
@@ -86,3 +110,16 @@ Example proto_c2s_rejects :
    proto_c2s [o; mkP 1 (Some (mkHd 4 2 1 0)) None (Some 7) None false])
   = (true, false, false, false, false, false, false, false, false, false).
 Proof. vm_compute. reflexivity. Qed.
+
+(* the hypotheses of C06_server_stream are met by a non-trivial run: sy's end-to-end demo of a bidirectional stream
+   (two messages echoed, half-close, the handler returns nil) projected on the server: the peer's envelopes satisfy
+   [sconf], the server wrote message, message, trailer for the stream's id - accepted *)
+Example C06_server_applies :
+  match Sys.lrun Sys.pol_any Sys.init SysC01.demo_c02 with
+  | Some s =>
+      sconfb 1 (sreads (Server.log (Sys.sv s))) = true /\
+      map (fun f => (Server.has_body f, Server.has_trl f)) (idf 1 (written (Server.log (Sys.sv s)))) = [(true, false); (true, false); (false, true)] /\
+      proto_s2c false (proj 1 (map pf (written (Server.log (Sys.sv s))))) = true
+  | None => False
+  end.
+Proof. vm_compute. repeat split; reflexivity. Qed.
